@@ -191,11 +191,10 @@ pub(crate) fn eval_form<E: Evaluator>(
     ctx: &mut TulispContext,
     val: &TulispObject,
 ) -> Result<TulispObject, Error> {
+    // The head is looked up at every call.  (A value cached in the form when
+    // it was read goes stale as soon as the function is redefined.)
     let name = val.car()?;
-    let func = match val.ctxobj() {
-        Some(func) => func,
-        None => eval(ctx, &name)?,
-    };
+    let func = eval(ctx, &name)?;
     funcall::<E>(ctx, &func, &val.cdr()?)
 }
 
